@@ -1054,6 +1054,10 @@ class DigitalWaveform(Generic[TDigitalState]):
                 self._data_1d.resize(value, refcheck=False)
                 self._data = self._data_1d.reshape(len(self._data_1d), 1)
             else:
+                if not self._data.flags.c_contiguous:
+                    # ndarray.resize() treats the buffer as C-ordered, which would scramble the
+                    # samples of a Fortran-ordered or strided array.
+                    self._data = np.ascontiguousarray(self._data)
                 self._data.resize((value, self.signal_count), refcheck=False)
 
     @property
